@@ -13,11 +13,13 @@ PURE_FOR_GUARDS = ("::value", "::len", "::nrows", "::ncols", "::output_len", "::
 
 
 def nosite(t):
+    if isinstance(t, frozenset):
+        return frozenset(nosite(x) for x in t)
     if not isinstance(t, tuple):
         return t
-    if t and t[0] == "call":
+    if t and t[0] == "call" and len(t) == 5:
         return ("call", t[1], t[2], tuple(nosite(a) for a in t[3]), None)
-    return tuple(nosite(x) if isinstance(x, tuple) else x for x in t)
+    return tuple(nosite(x) if isinstance(x, (tuple, frozenset)) else x for x in t)
 
 
 def cone(F):
